@@ -137,6 +137,55 @@ def _lib_frame(text):
     return "unknown"
 
 
+def _parse_san_text(txt):
+    """ASan / UBSan / LSan / TSan report blocks in a text (a log file, or the captured stderr: gcc's libubsan writes its
+    reports to stderr whatever log_path says)"""
+    reps = []
+    if "runtime error:" not in txt and "Sanitizer" not in txt:      # (children's stderr files can be megabytes of library messages)
+        return reps
+    if len(txt) > 200000:      # keep only the neighbourhood of the report markers (the block regexes are slow on binary noise)
+        pieces, pos = [], 0
+        for m in re.finditer(r"runtime error:|==ERROR: |WARNING: ThreadSanitizer", txt):
+            st = txt.rfind("\n", 0, m.start()) + 1
+            if st < pos:
+                continue
+            pieces.append(txt[st:st + 8000])
+            pos = st + 8000
+            if len(pieces) >= 300:
+                break
+        txt = "\n".join(pieces)
+    # ASan / UBSan / LSan / TSan blocks
+    blocks = re.split(r"(?m)^(?==+\d+==ERROR|WARNING: ThreadSanitizer|.*runtime error:)", txt)
+    for blk in blocks:
+        m = re.search(r"ERROR: (AddressSanitizer|LeakSanitizer): ([\w-]+)", blk)
+        if m:
+            kind = m.group(2)
+            if m.group(1) == "LeakSanitizer" or kind == "detected":
+                # one key per leak stack
+                for lm in re.finditer(r"(?s)(Direct|Indirect) leak of (\d+) byte\(s\) in (\d+) object\(s\) allocated from:\n(.*?)(?:\n\n|\Z)", blk):
+                    fn = _lib_frame(lm.group(4))
+                    reps.append(("lsan:leak:" + fn, lm.group(0)[:1500]))
+                continue
+            reps.append(("asan:%s:%s" % (kind, _lib_frame(blk)), blk[:3000]))
+            continue
+        m = re.search(r"WARNING: ThreadSanitizer: ([\w -]+?) \(pid", blk)
+        if m:
+            kind = m.group(1).strip().replace(" ", "-")
+            fns = []
+            for part in re.split(r"\n\s*\n", blk):
+                if re.search(r"(?m)^\s*(Write|Read|Previous (write|read)|Atomic (write|read)|Previous atomic) of size", part):
+                    fns.append(_lib_frame(part))
+            fns = sorted(set(fns)) or [_lib_frame(blk)]
+            reps.append(("tsan:%s:%s" % (kind, "+".join(fns)), blk[:3000]))
+            continue
+        m = re.search(r"(\S+:\d+:\d+): runtime error: (.*)", blk)
+        if m:
+            what = re.sub(r"-?\d+", "N", m.group(2))[:60].strip().replace(" ", "-")
+            loc = os.path.basename(m.group(1)).split(":")[0]
+            reps.append(("ubsan:%s:%s" % (loc, what), blk[:2000]))
+    return reps
+
+
 def _parse_sanitizer_logs(logbase):
     """returns list of (key, text) for every report block found in <logbase>.san.* / .vg"""
     reps = []
@@ -151,35 +200,7 @@ def _parse_sanitizer_logs(logbase):
         except OSError:
             continue
         if ".san" in f:
-            # ASan / UBSan / LSan / TSan blocks
-            blocks = re.split(r"(?m)^(?==+\d+==ERROR|WARNING: ThreadSanitizer|.*runtime error:)", txt)
-            for blk in blocks:
-                m = re.search(r"ERROR: (AddressSanitizer|LeakSanitizer): ([\w-]+)", blk)
-                if m:
-                    kind = m.group(2)
-                    if m.group(1) == "LeakSanitizer" or kind == "detected":
-                        # one key per leak stack
-                        for lm in re.finditer(r"(?s)(Direct|Indirect) leak of (\d+) byte\(s\) in (\d+) object\(s\) allocated from:\n(.*?)(?:\n\n|\Z)", blk):
-                            fn = _lib_frame(lm.group(4))
-                            reps.append(("lsan:leak:" + fn, lm.group(0)[:1500]))
-                        continue
-                    reps.append(("asan:%s:%s" % (kind, _lib_frame(blk)), blk[:3000]))
-                    continue
-                m = re.search(r"WARNING: ThreadSanitizer: ([\w -]+?) \(pid", blk)
-                if m:
-                    kind = m.group(1).strip().replace(" ", "-")
-                    fns = []
-                    for part in re.split(r"\n\s*\n", blk):
-                        if re.search(r"(?m)^\s*(Write|Read|Previous (write|read)|Atomic (write|read)|Previous atomic) of size", part):
-                            fns.append(_lib_frame(part))
-                    fns = sorted(set(fns)) or [_lib_frame(blk)]
-                    reps.append(("tsan:%s:%s" % (kind, "+".join(fns)), blk[:3000]))
-                    continue
-                m = re.search(r"(\S+:\d+:\d+): runtime error: (.*)", blk)
-                if m:
-                    what = re.sub(r"-?\d+", "N", m.group(2))[:60].strip().replace(" ", "-")
-                    loc = os.path.basename(m.group(1)).split(":")[0]
-                    reps.append(("ubsan:%s:%s" % (loc, what), blk[:2000]))
+            reps.extend(_parse_san_text(txt))
         elif f.endswith(".vg") or ".vg" in f:
             blocks = re.split(r"(?m)^==\d+== \n", txt)
             for blk in blocks:
@@ -261,6 +282,12 @@ def run_job(job):
             except OSError:
                 pass
             res.tool_reports = _parse_sanitizer_logs(logbase)
+            if job.tool in ("asan", "tsan") or job.flavor in ("asan", "asand", "tsan"):
+                seen = set(k for k, _ in res.tool_reports)
+                for k, t in _parse_san_text((so or b"").decode(errors="replace")):
+                    if k not in seen:
+                        seen.add(k)
+                        res.tool_reports.append((k, t))
             # cleanup
             for f in os.listdir(work_dir()):
                 if f.startswith(os.path.basename(logbase)):
